@@ -13,6 +13,7 @@ import SkNet.Lemmas.ClassifyReach
 import SkNet.Lemmas.ClassifyKnn
 import SkNet.Lemmas.ClassifyRank
 import SkNet.Lemmas.ClassMetrics
+import SkNet.Lemmas.ClassifySelect
 
 namespace SkNet.C13
 open SkNet SkNet.Classify
@@ -357,6 +358,11 @@ theorem propagation_rows (c : Csr Rat) (hw : ∀ p, 0 ≤ c.data.getD p 0) (labe
     positions of labelled nodes -/
 def SelOK (sel : Nat → List Rat → Nat → List Nat) : Prop :=
   ∀ i ds k, k < ds.length → IsSmallestK ds k (sel i ds k) = true
+
+/-- ★ the selection used by the `run` lines (`smallestK`: the `k` smallest keys, ties by position) satisfies the
+    contract of `np.argpartition`: the theorems below apply to the executable model as it is run. -/
+theorem smallestK_contract : SelOK (fun _ ds k => smallestK ds k) :=
+  fun _ ds k hk => smallestK_spec ds k (Nat.le_of_lt hk)
 
 /-- ★ **seeds_kept** (NNClassifier): a labelled node gets a one-hot row and keeps its label, for any
     selection of neighbours. -/
